@@ -11,6 +11,7 @@ CONSTANTS
   TornTailFails = FALSE
   RoaringTwoWrites = FALSE
   RowOpAsync = FALSE
+  MultiSeparateWrites = FALSE
   Contentless = FALSE
 INIT Init
 NEXT Next
